@@ -196,7 +196,7 @@ pub struct MiscCase {
 }
 
 pub fn misc_case() -> impl Strategy<Value = MiscCase> {
-    (3u8..=11, any::<bool>(), 1u64..=70_000, 1u16..=16, 1u8..=8, 3u32..=512, 10u16..=500, 1u32..=60_000, 0u8..3, any::<u64>())
+    (prop_oneof![1 => 0u8..=2, 8 => 3u8..=11], any::<bool>(), 1u64..=70_000, 1u16..=16, 1u8..=8, 3u32..=512, 10u16..=500, 1u32..=60_000, 0u8..3, any::<u64>())
         .prop_map(|(fi_lg, fi_strings, bloom_bits, bloom_hashes, cm_hashes, cm_buckets, td_k, n, shape, seed)| MiscCase {
             fi_lg,
             fi_strings,
@@ -222,7 +222,8 @@ pub fn misc_sizes(c: &MiscCase, info: &mut CaseInfo) -> Result<(), Fail> {
     let cm_cells = c.cm_hashes as usize * c.cm_buckets as usize;
     ensure!(bf.serialize().len() == 24, "C18.bloom_image_size", "empty Bloom image {} bytes, expected 24", bf.serialize().len());
     ensure!(cm.serialize().len() == 16, "C18.countmin_image_size", "empty Count-Min image {} bytes, expected 16", cm.serialize().len());
-    let cap = (1usize << c.fi_lg) * 3 / 4;
+    // sizes below 8 are raised to 8 (the documented minimum map size)
+    let cap = (1usize << c.fi_lg.max(3)) * 3 / 4;
     let mut max_str = 0usize;
     for i in 0..c.n as u64 {
         let id = match c.shape {
@@ -262,13 +263,13 @@ pub fn misc_sizes(c: &MiscCase, info: &mut CaseInfo) -> Result<(), Fail> {
     // the bound belongs to the receiving configuration: a full sketch merged into fresh sketches of every smaller
     // (and the next larger) map size, and into a sketch that was reset by deserializing an empty image
     if !c.fi_strings {
-        for lg in 3..=(c.fi_lg + 1).min(11) {
+        for lg in 0..=(c.fi_lg + 1).min(11) {
             let mut dst: FrequentItemsSketch<u64> = FrequentItemsSketch::new(1usize << lg);
             if lg % 2 == 0 {
                 dst = FrequentItemsSketch::<u64>::deserialize(&dst.serialize()).map_err(|e| Fail { clause: "C18.fi_empty_image".into(), detail: format!("{e}") })?;
             }
             dst.merge(&fi_u);
-            let dcap = (1usize << lg) * 3 / 4;
+            let dcap = (1usize << lg.max(3)) * 3 / 4;
             let ctx = format!("a sketch of map size {} ({} active) merged into a fresh sketch of map size {}", 1usize << c.fi_lg, fi_u.num_active_items(), 1usize << lg);
             ensure!(dst.maximum_map_capacity() == dcap && dst.num_active_items() <= dcap, "C18.fi_active_items", "{ctx}: {} active items > capacity {dcap}", dst.num_active_items());
             ensure!(dst.lg_cur_map_size() <= dst.lg_max_map_size() && dst.current_map_capacity() <= dst.maximum_map_capacity(), "C18.fi_map_size", "{ctx}: current map lg {} > configured maximum lg {}", dst.lg_cur_map_size(), dst.lg_max_map_size());
